@@ -212,4 +212,32 @@ theorem source_handler_methods_are_model (h : Gen.ClientHandlerSrc) (st : Gen.St
     (formOfHandler h).acceptsStreamType (streamOfSrc st) = Gen.acceptsStreamTypeSrc false false h st := by
   cases h <;> cases st <;> decide
 
+
+/-! ### a rejection class stated outright: gRPC needs HTTP/2 -/
+
+/-- **A gRPC request that did not arrive over HTTP/2 is never validated** - whatever the method, the service's
+    target protocols and the headers - and therefore reaches no service handler. -/
+theorem grpc_needs_http2 (w : World) (t : TConf) (r : Req) (c : ClientForm) (hc : classifyRequest r = some c)
+    (hp : c.proto = .grpc) (hv : r.protoMajor ≠ 2) : ∀ o, validate w t r ≠ .ok o := by
+  intro o h
+  unfold validate at h
+  simp only [hc] at h
+  split at h
+  · simp at h
+  · split at h
+    · simp at h
+    · split at h
+      · simp at h
+      · split at h
+        · simp at h
+        · have hg : (c.proto == Proto.grpc && r.protoMajor != 2) = true := by simp [hp, hv]
+          simp [hg] at h
+
+theorem grpc_over_http1_no_service_dispatch (w : World) (sc : Scenario) (c : ClientForm)
+    (hc : classifyRequest sc.req = some c) (hp : c.proto = .grpc) (hv : sc.req.protoMajor ≠ 2) :
+    (serve w sc).dispatch ≠ .svc := by
+  intro h
+  obtain ⟨o, ho, _⟩ := (svc_dispatch_iff w sc).1 h
+  exact grpc_needs_http2 w sc.conf sc.req c hc hp hv o ho
+
 end Vanguard.C18
